@@ -200,7 +200,7 @@ let () =
                      if DotSpec.regex_missing g (List.map (fun (i, x) -> (i, items x)) pool) (items r) = []
                         && g.DotRead.g_directed then Atom "ok" else Atom "missing")
             | _ -> Atom "nomodel" in
-          List [List [Atom "known"; b (Dot.known_rx pool r)]; List [Atom "pinned"; j Dot.pinned];
+          List [List [Atom "known"; b (Dot.known_rx_all pool r)]; List [Atom "pinned"; j Dot.pinned];
                 List [Atom "fixed"; j Dot.patched]]
       | _ -> raise (Shape "dotclassregex args"));
   (* dotwf <dfa> -> true | false : the hypothesis of the C16 theorems *)
@@ -208,6 +208,11 @@ let () =
       match v with
       | List [d] -> b (Dot.wf_cdfa (cdfa_of d))
       | _ -> raise (Shape "dotwf args"));
+  (* dotrxwf <payload> -> true | false : the hypothesis of the C16 regex theorems *)
+  register "dotrxwf" (fun v ->
+      match v with
+      | List [payload] -> let (pool, r) = regex_payload payload in b (Dot.rx_wf_b pool r)
+      | _ -> raise (Shape "dotrxwf args"));
   (* dotsubids <base> <dfa> -> ((poolidx id)...) : the prescribed numbering of the clusters *)
   register "dotsubids" (fun v ->
       match v with
